@@ -63,7 +63,8 @@ def load_analysis(files: Dict[int, str], directory: str, include_last: bool = Fa
 
 # ---- prelude: other analyses run on the same object before the analysis under test ------------------
 PRELUDE_OPS = ["call_graph", "call_graph_cp", "decode", "kernel_breakdown_mem", "temporal", "overlap", "launch_stats", "queue",
-               "critical_path", "user_annotations", "call_graph_twice", "critical_path_first_step", "critical_path_first_step"]
+               "critical_path", "user_annotations", "call_graph_twice", "critical_path_first_step", "critical_path_first_step",
+               "idle", "membw", "annotation_breakdown", "stragglers", "freq_seq", "counters_file", "blocked_queue", "cp_overlay"]
 
 
 def run_prelude(ta, ops) -> None:
@@ -108,6 +109,33 @@ def run_prelude(ta, ops) -> None:
                     ta.critical_path_analysis(rank=ranks[-1], annotation="ProfilerStep", instance_id=0)
             elif op == "user_annotations":
                 ta.get_gpu_kernels_with_user_annotations(rank=ranks[0])
+            elif op == "idle":
+                ta.get_idle_time_breakdown(ranks=ranks, visualize=False, show_idle_interval_stats=True)
+            elif op == "membw":
+                ta.get_memory_bw_time_series(ranks=ranks)
+                ta.get_memory_bw_summary(ranks=ranks)
+            elif op == "annotation_breakdown":
+                ta.get_gpu_user_annotation_breakdown(visualize=False)
+                ta.get_gpu_user_annotation_breakdown(use_gpu_annotation=False, visualize=False)
+            elif op == "stragglers":
+                ta.get_potential_stragglers()
+            elif op == "blocked_queue":
+                ta.get_time_spent_blocked_on_full_queue(ta.get_queue_length_time_series(ranks=ranks), max_queue_length=1)
+            elif op == "freq_seq":
+                import tempfile
+
+                with tempfile.TemporaryDirectory(dir=os.environ.get("HV_TMP")) as out:
+                    ta.get_frequent_cuda_kernel_sequences(operator_name="aten::linear", output_dir=out, min_pattern_len=1,
+                                                          rank=ranks[0], top_k=2)
+            elif op == "counters_file":
+                ta.generate_trace_with_counters(ranks=ranks[:1], output_suffix="_prelude")  # written next to the trace file
+            elif op == "cp_overlay":
+                import tempfile
+
+                g, ok = ta.critical_path_analysis(rank=ranks[0], annotation="", instance_id=None)
+                if ok:
+                    with tempfile.TemporaryDirectory(dir=os.environ.get("HV_TMP")) as out:
+                        ta.overlay_critical_path_analysis(ranks[0], g, output_dir=out)
         except Exception:  # noqa: BLE001
             pass
 
